@@ -68,7 +68,7 @@ inductive Admit where
   deriving DecidableEq, Repr
 
 /-- `mergeRemoteState`: verify, then (join only) the merge delegate, then the merge -/
-def admit (remote : List Remote) (loc : List Local) (join hasMergeDelegate delegateOk : Bool) : Admit :=
+def admission (remote : List Remote) (loc : List Local) (join hasMergeDelegate delegateOk : Bool) : Admit :=
   if !verify remote loc then .versionError
   else if join && hasMergeDelegate && !delegateOk then .vetoed
   else .merged
